@@ -5,6 +5,7 @@ import (
 	"bytes"
 	"fmt"
 	"io"
+	"math"
 	"strings"
 
 	"go.pennock.tech/tabular"
@@ -37,7 +38,8 @@ type Case struct {
 	Target string     `json:"target"`
 	Align  []int      `json:"align,omitempty"`
 	Skip   []int      `json:"skip,omitempty"` // skipable per column (0 unset, 1 true, 2 false)
-	Pre    int        `json:"pre,omitempty"`  // >0: a long-lived target wrapper is created and rendered after Pre-1 operations, and rendered again at the end
+	Pre    int        `json:"pre,omitempty"`
+	Poison bool       `json:"poison,omitempty"` // first, a sibling table is rendered in the target format and fails part-way  // >0: a long-lived target wrapper is created and rendered after Pre-1 operations, and rendered again at the end
 }
 
 func wrapOne(t tabular.Table, kind string) tabular.Table {
@@ -177,7 +179,33 @@ func isText(target string) bool {
 	return true
 }
 
+// poison renders a sibling table that fails part-way (an item JSON cannot encode, in its second row) through
+// every entry point of the target format: a failed render of one table must not leave anything behind for another.
+func poison(target string) {
+	sib := tabular.New()
+	sib.AddHeaders("a", "b")
+	sib.AddRowItems("x", 1)
+	sib.AddRowItems("y", math.NaN())
+	targetWrap(sib, target).Render()
+	auto.Render(sib, target)
+	w := targetWrap(sib, target)
+	w.RenderTo(&failAfter{n: 3})
+}
+
+type failAfter struct{ n int }
+
+func (f *failAfter) Write(p []byte) (int, error) {
+	f.n--
+	if f.n < 0 {
+		return len(p) / 2, fmt.Errorf("injected write failure")
+	}
+	return len(p), nil
+}
+
 func CheckCase(c Case) *ev.Violation {
+	if c.Poison {
+		poison(c.Target)
+	}
 	// reference: the same content on a core table, rendered exactly once by X.Wrap(t).Render()
 	refScript := gen.Script{Ops: c.Script.Ops}
 	ref, _ := gen.Build(refScript)
@@ -188,6 +216,7 @@ func CheckCase(c Case) *ev.Violation {
 	inner := gen.NewTable(c.Script.Creator)
 	var t tabular.Table = inner
 	var long renderer
+	var handles []tabular.Table // every wrapper of the chain, innermost first
 	var stepViolation *ev.Violation
 	// refAt renders the first k operations on a fresh core table, once.
 	refAt := func(k int) (string, error) {
@@ -225,10 +254,12 @@ func CheckCase(c Case) *ev.Violation {
 		build(inner)
 		for _, k := range c.Chain {
 			t = wrapOne(t, k)
+			handles = append(handles, t)
 		}
 	} else {
 		for _, k := range c.Chain {
 			t = wrapOne(t, k)
+			handles = append(handles, t)
 		}
 		build(t)
 	}
@@ -254,6 +285,42 @@ func CheckCase(c Case) *ev.Violation {
 	for _, r := range routes(t, c.Target) {
 		if v := cmp(r.route, r.out, r.err); v != nil {
 			return v
+		}
+	}
+	// every wrapper of the chain that is of the target kind renders the same, however often it is asked
+	if creatorHandle, ok := inner.(renderer); ok {
+		_ = creatorHandle
+		handles = append([]tabular.Table{inner}, handles...)
+	}
+	for hi, hd := range handles {
+		r, ok := hd.(renderer)
+		if !ok {
+			continue
+		}
+		own := ""
+		switch x := hd.(type) {
+		case *csv.CSVTable:
+			own = "csv"
+		case *html.HTMLTable:
+			own = "html"
+		case *json.JSONTable:
+			own = "json"
+		case *markdown.MarkdownTable:
+			own = "markdown"
+		case *texttable.TextTable:
+			if isText(c.Target) {
+				own = c.Target
+				x.SetDecorationNamed(c.Target)
+			}
+		}
+		if own != c.Target {
+			continue
+		}
+		for rep := 0; rep < 3; rep++ {
+			o, e := r.Render()
+			if v := cmp(fmt.Sprintf("wrapper #%d of the nesting (%T), render %d through that handle", hi, hd, rep+1), o, e); v != nil {
+				return v
+			}
 		}
 	}
 	// last (it changes the wrapper's decoration): the outermost wrapper's own Render, when it is of the target kind
@@ -319,6 +386,9 @@ func Classify(c Case) (bool, interface{}, []string) {
 	}
 	if c.Late {
 		cl = append(cl, "wrapped-after-build")
+	}
+	if c.Poison {
+		cl = append(cl, "failed-render-of-another-table-first")
 	}
 	return nt, nil, cl
 }
